@@ -593,6 +593,14 @@ func (c *Ctx) checkCAS(r *Report, ro *Roles, rt *types.Named) {
 		if call, ok := in.(*ssa.Call); ok {
 			if f := call.Common().StaticCallee(); f != nil && strings.HasPrefix(f.Name(), "CompareAndSwap") {
 				if f.Object() != nil && f.Object().Pkg() != nil && f.Object().Pkg().Path() == "sync/atomic" {
+					// the interval marker is an integer; a compare-and-swap of a pointer (publishing a snapshot) is a write
+					// to be guarded, not the guard
+					if rv := f.Signature.Recv(); rv != nil && strings.Contains(rv.Type().String(), "Pointer[") {
+						return
+					}
+					if strings.HasSuffix(f.Name(), "Pointer") {
+						return
+					}
 					cas = call
 				}
 			}
@@ -615,6 +623,15 @@ func (c *Ctx) checkCAS(r *Report, ro *Roles, rt *types.Named) {
 	bad := 0
 	for _, w := range writes {
 		ok := false
+		// a store into a struct this function has just allocated (an immutable snapshot built before it is published)
+		// is not a write to shared state; its publication is
+		if st, isSt := w.Instr.(*ssa.Store); isSt {
+			if fa, isFA := st.Addr.(*ssa.FieldAddr); isFA {
+				if _, fresh := fa.X.(*ssa.Alloc); fresh {
+					continue
+				}
+			}
+		}
 		for _, g := range guardsOfInstr(w.Instr) {
 			if g.Cond == cas && g.Polarity {
 				ok = true
@@ -1861,7 +1878,7 @@ func checkC19(c *Ctx, r *Report) {
 			}
 			for f := range c.reach(root) {
 				eachInstr(f, func(in ssa.Instruction) {
-					if p, ok := in.(*ssa.Panic); ok {
+					if p, ok := in.(*ssa.Panic); ok && !isCompilerPanic(p) {
 						n++
 						r.Fail("C19.swallow:"+fname(f), c.instrPos(p), "explicit panic reachable from %s", fname(root))
 					}
